@@ -334,6 +334,7 @@ type dirEnv struct {
 	// see from then on is the same hang).
 	broken   bool
 	noAnswer int
+	debug    bool
 }
 
 // restart abandons a directory that no longer answers and starts a fresh one.
@@ -346,13 +347,23 @@ func (e *dirEnv) restart() {
 		old.Stop() // may never return when a handler hangs with the directory's mutex held
 	}()
 	e.conn = nil
-	n := newDirEnv(e.kind)
+	k := e.kind
+	if e.debug {
+		k += "-debug"
+	}
+	n := newDirEnv(k)
 	e.d, e.t, e.conn, e.broken = n.d, n.t, n.conn, false
 }
 
 func newDirEnv(kind string) *dirEnv {
+	kind0 := kind
 	t := &quietT{}
 	opts := []testdirectory.Option{testdirectory.WithLogger(t, quietLogger)}
+	if strings.HasSuffix(kind, "-debug") {
+		// a directory whose logger is at debug level (gldap then dumps every request it reads)
+		opts = []testdirectory.Option{testdirectory.WithLogger(t, debugLogger)}
+		kind = strings.TrimSuffix(kind, "-debug")
+	}
 	if kind == "plain" || kind == "starttls" {
 		opts = append(opts, testdirectory.WithNoTLS(t))
 	}
@@ -361,6 +372,7 @@ func newDirEnv(kind string) *dirEnv {
 	}
 	d := startDirectory(t, opts...)
 	e := &dirEnv{d: d, t: t, kind: kind}
+	e.debug = strings.HasSuffix(kind0, "-debug")
 	e.reconnect()
 	return e
 }
@@ -707,6 +719,7 @@ func dirAlphabet(thorough bool) []dirOp {
 		ops = append(ops, dirOp{Kind: "delete", DN: dn})
 	}
 	single := [][]codec.Change{
+		{}, // a Modify without changes: success for an entry that exists, noSuchObject for one that does not
 		{{Op: 0, Type: "description", Vals: []string{"d1"}}},
 		{{Op: 0, Type: "email", Vals: []string{"second@x"}}},
 		{{Op: 1, Type: "email"}},
@@ -818,7 +831,7 @@ done:
 	}
 	// C19: the static matrix over the three transports
 	if prop == "C19" {
-		for _, kind := range []string{"tls", "starttls", "plain"} {
+		for _, kind := range []string{"tls", "starttls", "plain", "plain-debug", "tls-debug"} {
 			if !c.Mine() {
 				continue
 			}
